@@ -339,13 +339,26 @@ def direct_parse(raw, msgmode=0, validate=1, pbf=1, labelmsm=1):
     return True, digest(m), ""
 
 
-def run_reader(data, filt=7, quit=1, parsing=True, handler=True, msgmode=0, validate=1, pbf=1, keep_reads=True, intern=None, labelmsm=1, bursts=(), kind="min", poll=False, pauses=(), resume=False, companion=None):
+def run_reader(data, filt=7, quit=1, parsing=True, handler=True, msgmode=0, validate=1, pbf=1, keep_reads=True, intern=None, labelmsm=1, bursts=(), kind="min", poll=False, pauses=(), resume=False, companion=None, reentrant=False):
     """One complete iteration of UBXReader over `data`.  Returns the run record."""
     from pyubx2 import UBXReader
 
     events = []
     sockview = None
+    sockbuf = 4096
+    fdhold = []
     if kind == "sock" and not bursts:
+        # receive buffer sizes that recv() fills exactly (17 = the segment size below), and every fourth socket run in a process that
+        # already holds more than a thousand open descriptors (the socket's own descriptor is then above 1024)
+        sockbuf = (4096, 17, 4096, 64)[(len(data) + quit) % 4]
+        if (len(data) + filt + quit) % 4 == 2:
+            import os as _os
+
+            try:
+                while len(fdhold) < 1100:
+                    fdhold.append(_os.open("/dev/null", _os.O_RDONLY))
+            except OSError:
+                pass
         # a scripted socket (socket.socket subclass): the reader wraps it itself; segment boundaries are placed just before every LF
         # (between CR and LF), inside headers and at a few seeded positions; what is unread = not yet received + the wrapper's buffer
         from . import sock as _sock
@@ -384,6 +397,7 @@ def run_reader(data, filt=7, quit=1, parsing=True, handler=True, msgmode=0, vali
             def __call__(self, err):
                 events.append({"t": "handler", "n": 0, "got": 0, "a": 0, "b": stream.pos, "p": "", "fam": family(err)})
                 errs.append(err)
+                return len(errs)  # (what a handler returns is its own business: a counter, True, a coroutine ...)
 
         on_error = _Collector()
     elif handler and (len(data) + filt) % 3 == 1 and len(data) % 2:
@@ -400,9 +414,42 @@ def run_reader(data, filt=7, quit=1, parsing=True, handler=True, msgmode=0, vali
             error = warning = info = debug = exception = critical = log = write = send = put = append = handle = emit = _other
 
         on_error = _Facade()
+    reenter = {"rdr": None, "depth": 0}
+    if reentrant and handler and (len(data) + filt) % 3 == 2 and len(data) % 2 == 0:
+        # (C08 only: over a socket a nested read that meets the end of the data makes the outer loop poll on, so WHAT is delivered may
+        # legitimately differ from a run without such a handler - that the run ends, and how, may not)
+        # ... or a handler that uses the reader itself: it reads the item after the rejected one (to log it with the error) - that item
+        # is delivered to the handler instead of the loop, in stream order all the same
+        def on_error(err):  # noqa: F811
+            events.append({"t": "handler", "n": 0, "got": 0, "a": 0, "b": stream.pos, "p": "", "fam": family(err)})
+            errs.append(err)
+            if reenter["rdr"] is not None and reenter["depth"] == 0:
+                reenter["depth"] += 1
+                try:
+                    raw, parsed = reenter["rdr"].read()
+                finally:
+                    reenter["depth"] -= 1
+                if raw is not None:
+                    ok_raw = isinstance(raw, (bytes, bytearray))
+                    rb = bytes(raw) if ok_raw else b""
+                    items.append({"raw": rb, "ok_raw": ok_raw, "endpos": stream.pos, "pt": ptype(parsed), "pd": digest(parsed)})
+                    events.append({"t": "item", "n": 0, "got": 0, "a": stream.pos - len(rb), "b": stream.pos, "p": "", "fam": ""})
+
+    inline_owner = None
+    if handler and (len(data) + filt) % 3 == 2 and len(data) % 2:
+        # ... or a bound method of an object nobody else holds (created in the constructor call itself)
+        class _Tagger:
+            def report(self, err):
+                events.append({"t": "handler", "n": 0, "got": 0, "a": 0, "b": stream.pos, "p": "", "fam": family(err)})
+                errs.append(err)
+
+        inline_owner = _Tagger
+        on_error = None
 
     kw = dict(msgmode=msgmode, validate=validate, protfilter=filt, quitonerror=quit, parsebitfield=pbf, parsing=parsing, labelmsm=labelmsm)
-    if handler:
+    if sockbuf != 4096:
+        kw["bufsize"] = sockbuf
+    if handler and inline_owner is None:
         kw["errorhandler"] = on_error
     end = "eof"
     endfam = ""
@@ -435,6 +482,15 @@ def run_reader(data, filt=7, quit=1, parsing=True, handler=True, msgmode=0, vali
     _lg.propagate = False
     _olddis = _logging.root.manager.disable
     _logging.disable(_logging.NOTSET)  # (the harness silences logging globally; records go to the capturing handler only)
+    _oldlvl = _lg.level
+    if handler and (len(data) + quit) % 3 == 2:
+        # an application that has switched logging off (globally, or for this library): the error HANDLER is not logging
+        if len(data) % 2:
+            _logging.disable(_logging.CRITICAL)
+        else:
+            _lg.setLevel(_logging.CRITICAL + 10)
+    elif (len(data) + quit) % 3 == 1:
+        _lg.setLevel(_logging.DEBUG)  # an application that debugs: everything the library logs is enabled (and captured here)
     import warnings as _warnings
 
     _wctx = _warnings.catch_warnings()
@@ -444,11 +500,14 @@ def run_reader(data, filt=7, quit=1, parsing=True, handler=True, msgmode=0, vali
         _warnings.filterwarnings("error", module=r"pyubx2(\.|$)")
         _warnings.filterwarnings("error", module=r"harness(\.|$)")
     try:
-        if (len(data) + quit + 2 * filt) % 4 == 3:
+        if inline_owner is not None:
+            rdr = UBXReader(stream, errorhandler=inline_owner().report, **kw)
+        elif (len(data) + quit + 2 * filt) % 4 == 3:
             # every documented option given positionally, in the documented order
-            rdr = UBXReader(stream, msgmode, validate, filt, quit, pbf, labelmsm, 4096, parsing, *((on_error,) if handler else ()))
+            rdr = UBXReader(stream, msgmode, validate, filt, quit, pbf, labelmsm, sockbuf, parsing, *((on_error,) if handler else ()))
         else:
             rdr = UBXReader(stream, **kw)
+        reenter["rdr"] = rdr
         if sockview is not None:
             sockview.rdr = rdr
             stream = sockview
@@ -497,7 +556,7 @@ def run_reader(data, filt=7, quit=1, parsing=True, handler=True, msgmode=0, vali
                 break
             except Exception as ex:  # noqa: BLE001
                 # an application that catches the protocol error raised under ERR_RAISE and carries on with the SAME iterator
-                if resume and quit == 2 and not family(ex).startswith("foreign") and resumed < 3000:
+                if resume and quit == 2 and not family(ex).startswith("foreign") and resumed < 60000:
                     resumed += 1
                     events.append({"t": "raise", "n": 0, "got": 0, "a": 0, "b": stream.pos, "p": "", "fam": family(ex)})
                     errs.append(ex)
@@ -523,12 +582,20 @@ def run_reader(data, filt=7, quit=1, parsing=True, handler=True, msgmode=0, vali
     _wctx.__exit__(None, None, None)
     _lg.removeHandler(_cap)
     _lg.propagate = _oldprop
+    _lg.setLevel(_oldlvl)
     _logging.disable(_olddis)
     if use_alarm:
         signal.alarm(0)
         signal.signal(signal.SIGALRM, old)
     if sockview is not None:
         sockview.close()
+    for _fd in fdhold:
+        try:
+            import os as _os
+
+            _os.close(_fd)
+        except OSError:
+            pass
     if isinstance(stream, RecOSPipe):
         stream.finish()
     run = {
